@@ -447,8 +447,9 @@ package server
 // ---- C16: the result limit ----
 //@ trusted determineCompletionContext
 //@   effects none
-//@ trusted extractQueryText
-//@   effects none
+// No precondition: total on every content and position (the byte column may lie past the line for ill-formed UTF-8).
+//@ func extractQueryText
+//@   props C06 C16
 //@ trusted rankCompletionItemsByScore
 //@   ensures len(result) == len(scored) && (fresh(result) || len(result) == 0)
 
